@@ -449,7 +449,10 @@ MANIFEST = {
                   'saves, table and stream format): the loader model Model/Loader.v applied to the bytes of inc_save returns the overlay '
                   'of the new objects over the loaded ones; every file of such a history is a chain of well-formed revisions whose '
                   'merged table maps each number to the exact offset of the newest defining object (invariant good_file), loads, and any '
-                  'further update through the modelled API succeeds and stays in the family (induction over saves). Save side for ALL '
+                  'further update through the modelled API succeeds and stays in the family (induction over saves); the same for histories '
+                  'that MIX the two formats step by step (mixed_history: every step its own format tag, base saved by lopdf or any file '
+                  'meeting the invariant), the format is inherited when reference_table is not touched (C07_format_is_inherited), and the '
+                  'reloaded max_id is exact (max old new / new max_id + 1). Save side for ALL '
                   'inputs: output = previous bytes ++ only the new objects at exact header-relative offsets ++ one section with Prev = '
                   'previous xref_start (prefix also on failure); edits never touch the previous view. LAYOUT LEVEL, any producer: for all '
                   'chains of sections -- hybrid-reference sections included, as repaired (merge_xref_stream) -- every object number gets '
